@@ -14,7 +14,8 @@
 //!   row (cyclically) and `acc_{t+1} = acc_t · b + c_t − a_t`:  `out = acc_k`; every stored
 //!   intermediate `int_j` with `2(j+1) < k` equals `acc_{2(j+1)}`; for k ≥ 2 the witness
 //!   `b_sq = b · b`. Cells a row's arity does not use are free.
-//! * idle / separator / padding rows (all selectors 0): every value is allowed.
+//! * idle / separator / padding lanes (all selectors 0): `out = 0` in every coefficient (a
+//!   Horner chain takes its first accumulator from the separator row's `out`), other cells free.
 //!
 //! A case is one concrete trace = a base trace every row of which satisfies its relation
 //! (checked in full by AIR and reference) with the cells of ONE row edited. Verdicts are
@@ -151,11 +152,11 @@ impl<F: PrimeField64, const D: usize> Table<F, D> {
         kind: AluExtMulKind<F>,
         lanes: usize,
         k_max: usize,
-        ops: &[(AluOpKind, [u32; 4])],
+        ops: &[(AluOpKind, [u32; 4], u32)],
     ) -> Self {
         let neg1 = F::ZERO - F::ONE;
         let mut p = Vec::with_capacity(ops.len() * PLW);
-        for (k, idx) in ops {
+        for (k, idx, mult_out) in ops {
             let (s_add, s_bool, s_ma, s_h) = match k {
                 AluOpKind::Add => (1, 0, 0, 0),
                 AluOpKind::Mul => (0, 0, 0, 0),
@@ -174,7 +175,9 @@ impl<F: PrimeField64, const D: usize> Table<F, D> {
                 F::from_u32(idx[2] * D as u32),
                 F::from_u32(idx[3] * D as u32),
                 neg1,
-                F::ONE,
+                // mult_out: number of readers of the created output (0 = off the bus); the
+                // scheduler packs a Horner step only when its inner outputs are off the bus
+                F::from_u32(*mult_out),
                 F::ONE,
                 F::ONE,
             ]);
@@ -271,7 +274,7 @@ impl<F: PrimeField64, const D: usize> Table<F, D> {
             let c: EF = self.get(m, r, l.cell(lane, 2, 0));
             let out: EF = self.get(m, r, l.cell(lane, 3, 0));
             let ok = match self.kind(r, lane) {
-                Kind::Idle => true,
+                Kind::Idle => out == EF::ZERO,
                 Kind::Add => a + b == out,
                 Kind::Mul => a * b == out,
                 Kind::Bool => (a == EF::ZERO || a == EF::ONE) && out == a,
@@ -472,6 +475,49 @@ impl<F: PrimeField64, const D: usize> Table<F, D> {
         }
     }
 
+    /// Judge a whole alternative trace (edits spanning several rows): every row's relation vs
+    /// every evaluation index of the AIR. `r` names the row the case is attributed to.
+    pub fn judge_whole<EF: Field + BasedVectorSpace<F>>(
+        &self,
+        env: &Env,
+        st: &mut Stats,
+        m: &Mat<F>,
+        r: usize,
+        label: &str,
+        class: &str,
+    ) {
+        let h = m.h();
+        let ref_ok = (0..h).all(|i| self.rel::<EF>(m, i));
+        let air_ok = (0..h).all(|i| failures_at(&self.air, &self.prep, m, i) == 0);
+        let kind = self.kind_name(r, 0);
+        let bytes: Vec<u8> = m.v.iter().flat_map(|x| fu(x).to_le_bytes()).collect();
+        st.case(&self.cfg, &kind, !ref_ok, fnv64(&[self.cfg.as_bytes(), label.as_bytes(), &bytes]));
+        st.bump(match (ref_ok, air_ok) {
+            (true, true) => "ref_accept/air_accept",
+            (false, false) => "ref_reject/air_reject",
+            (true, false) => "MISMATCH ref_accept/air_reject",
+            (false, true) => "MISMATCH ref_reject/air_accept",
+        });
+        if ref_ok != air_ok {
+            let n = (r + 1) % h;
+            let nk = if self.kind(n, 0) == Kind::Horner { format!("->{}", self.kind_name(n, 0)) } else { String::new() };
+            let clause = if ref_ok { "valid_rejected" } else { "invalid_accepted" };
+            env.report.violation(
+                format!("C11|alu|{clause}|{}|{kind}{nk}|edit={class}", self.red),
+                format!(
+                    "{}: trace with `{label}`: reference relation {} but AluAir {}; row {r} {:?} next {:?}",
+                    self.cfg,
+                    if ref_ok { "holds on every row" } else { "is violated" },
+                    if air_ok { "accepts every row" } else { "rejects" },
+                    m.row(r).iter().map(fu).collect::<Vec<_>>(),
+                    m.row(n).iter().map(fu).collect::<Vec<_>>(),
+                ),
+                json!({"family":"alu","task":env.task,"cfg":self.cfg,"case":label,"row_index":r,
+                       "row":m.row(r).iter().map(fu).collect::<Vec<_>>()}),
+            );
+        }
+    }
+
     /// ±1 on every listed column of row r.
     pub fn unit_edits<EF: Field + BasedVectorSpace<F>>(
         &self,
@@ -626,15 +672,15 @@ pub fn run_plain<F: PrimeField64, EF: Field + BasedVectorSpace<F>, const D: usiz
         }
         rows.extend(copy);
     }
-    let ops: Vec<(AluOpKind, [u32; 4])> =
-        rows.iter().enumerate().map(|(i, (k, _))| (*k, [1, 2, 3, 4 + i as u32])).collect();
+    let ops: Vec<(AluOpKind, [u32; 4], u32)> =
+        rows.iter().enumerate().map(|(i, (k, _))| (*k, [1, 2, 3, 4 + i as u32], 1)).collect();
     let t = Table::<F, D>::build(cfg, red, kind, lanes, k_max, &ops);
     let trace = AluTrace {
         op_kind: rows.iter().map(|r| r.0).collect(),
         values: rows.iter().map(|r| r.1).collect(),
         indices: ops
             .iter()
-            .map(|(_, i)| [WitnessId(i[0]), WitnessId(i[1]), WitnessId(i[2]), WitnessId(i[3])])
+            .map(|(_, i, _)| [WitnessId(i[0]), WitnessId(i[1]), WitnessId(i[2]), WitnessId(i[3])])
             .collect(),
     };
     let mm = t.air.trace_to_matrix(&trace, 1);
@@ -710,6 +756,9 @@ pub enum BPat {
     Split2,
     /// two chains (lengths 2 and L-2) separated by a Mul op
     TwoChains,
+    /// shared index, but the output of chain op 1 is read elsewhere (mult_out != 0): the
+    /// scheduler must not make it an inner step of a packed row
+    InnerOnBus,
 }
 
 struct Assign<EF> {
@@ -739,11 +788,14 @@ pub fn run_horner<F: PrimeField64, EF: Field + BasedVectorSpace<F>, const D: usi
     let bas = basis::<F, EF, D>();
 
     // ---- op shape -------------------------------------------------------------------
-    let mut ops: Vec<(AluOpKind, [u32; 4])> = vec![];
-    let mut chain_pos: Vec<usize> = vec![]; // position of chain op t in `ops`
+    let mut ops: Vec<(AluOpKind, [u32; 4], u32)> = vec![];
+    // Lead op: a single Horner step with its own `b` index (so it is never packed with what
+    // follows) that turns the mandatory zero accumulator after the separator into an
+    // arbitrary accumulator `acc0` for the rows under test: out = 0·b + acc0 − 0.
+    ops.push((AluOpKind::HornerAcc, [7, 99, 8, 9], 0));
     let b_group = |t: usize| -> u32 {
         match bpat {
-            BPat::Shared | BPat::TwoChains => 5,
+            BPat::Shared | BPat::TwoChains | BPat::InnerOnBus => 5,
             BPat::Distinct => 100 + t as u32,
             BPat::Split2 => {
                 if t < 2 { 5 } else { 6 }
@@ -752,22 +804,23 @@ pub fn run_horner<F: PrimeField64, EF: Field + BasedVectorSpace<F>, const D: usi
     };
     for t in 0..len {
         if bpat == BPat::TwoChains && t == 2 {
-            ops.push((AluOpKind::Mul, [1, 2, 3, 900]));
+            ops.push((AluOpKind::Mul, [1, 2, 3, 900], 1));
         }
-        chain_pos.push(ops.len());
         let t3 = 3 * t as u32;
-        ops.push((AluOpKind::HornerAcc, [10 + t3, b_group(t), 11 + t3, 12 + t3]));
+        // inner outputs of a chain are unread (multiplicity 0), the final one is read
+        let on_bus = t == len - 1 || (bpat == BPat::InnerOnBus && t == 1) || (bpat == BPat::TwoChains && t == 1);
+        ops.push((AluOpKind::HornerAcc, [10 + t3, b_group(t), 11 + t3, 12 + t3], on_bus as u32));
     }
-    ops.push((AluOpKind::Mul, [1, 2, 3, 901]));
-    ops.push((AluOpKind::Add, [1, 2, 3, 902]));
+    ops.push((AluOpKind::Mul, [1, 2, 3, 901], 1));
+    ops.push((AluOpKind::Add, [1, 2, 3, 902], 1));
     let t = Table::<F, D>::build(cfg, red, kind, lanes, k_max, &ops);
     let l = t.lay;
     let h = t.prep.h();
     // rows carrying chain ops, in order, with their arity
     let hrows: Vec<(usize, usize)> =
         (0..h).filter(|r| t.kind(*r, 0) == Kind::Horner).map(|r| (r, t.arity(r).max(1))).collect();
-    if hrows.iter().map(|x| x.1).sum::<usize>() != len {
-        mach(&format!("{cfg}: scheduled Horner arities {hrows:?} do not cover {len} chain ops"));
+    if hrows.iter().map(|x| x.1).sum::<usize>() != len + 1 || hrows[0].1 != 1 {
+        mach(&format!("{cfg}: scheduled Horner arities {hrows:?} do not cover lead + {len} chain ops"));
     }
     for lane in 1..lanes {
         if (0..h).any(|r| t.kind(r, lane) == Kind::Horner) {
@@ -779,8 +832,8 @@ pub fn run_horner<F: PrimeField64, EF: Field + BasedVectorSpace<F>, const D: usi
         mach(&format!("{cfg}: no separator row before the first Horner row"));
     }
     st.notes.push(format!(
-        "horner shape len={len} {bpat:?} k_max={k_max} lanes={lanes}: arities {:?}",
-        hrows.iter().map(|x| x.1).collect::<Vec<_>>()
+        "horner shape len={len} {bpat:?} k_max={k_max} lanes={lanes}: arities after the lead step {:?}",
+        hrows.iter().skip(1).map(|x| x.1).collect::<Vec<_>>()
     ));
 
     // ---- value assignments ------------------------------------------------------------
@@ -836,20 +889,27 @@ pub fn run_horner<F: PrimeField64, EF: Field + BasedVectorSpace<F>, const D: usi
         }
     }
 
+    // lead step (index 0 of every vector): a = 0, c = acc0, so that its out = acc0
+    for z in asg.iter_mut() {
+        z.a.insert(0, EF::ZERO);
+        z.b.insert(0, gen_);
+        z.c.insert(0, z.acc0);
+    }
+
     // template trace from the repo's generator: honest Mul/Add rows, zero chain
     let mul_v = [gen_, big, EF::ZERO, gen_ * big];
     let add_v = [gen_, big, EF::ZERO, gen_ + big];
     let other = |k: AluOpKind| if k == AluOpKind::Mul { mul_v } else { add_v };
     let indices: Vec<[WitnessId; 4]> = ops
         .iter()
-        .map(|(_, i)| [WitnessId(i[0]), WitnessId(i[1]), WitnessId(i[2]), WitnessId(i[3])])
+        .map(|(_, i, _)| [WitnessId(i[0]), WitnessId(i[1]), WitnessId(i[2]), WitnessId(i[3])])
         .collect();
     let honest_trace = |z: &Assign<EF>| -> AluTrace<EF> {
         // the runner's view: every chain starts from accumulator 0 after a separator
         let mut values = vec![];
         let mut acc = EF::ZERO;
         let mut ti = 0;
-        for (k, _) in &ops {
+        for (k, _, _) in &ops {
             if *k == AluOpKind::HornerAcc {
                 acc = acc * z.b[ti] + z.c[ti] - z.a[ti];
                 values.push([z.a[ti], z.b[ti], z.c[ti], acc]);
@@ -867,45 +927,48 @@ pub fn run_horner<F: PrimeField64, EF: Field + BasedVectorSpace<F>, const D: usi
             st.cut += 1;
             break;
         }
-        // base trace from the repository's own generator (accumulator 0 at chain start) …
+        // base trace from the repository's own generator (accumulator 0 after the separator) …
         let mm = t.air.trace_to_matrix(&honest_trace(z), 1);
         let mut m = Mat { w: mm.width(), v: mm.values };
         let generated = m.clone();
-        // … and re-filled by the harness (reference layout + native field arithmetic),
-        // starting from the forged accumulator `acc0` placed in the separator row's `out`.
-        t.put(&mut m, first - 1, l.cell(0, 3, 0), &z.acc0);
-        let mut ti = 0;
-        for (r, k) in &hrows {
-            let (r, k) = (*r, *k);
-            let prev: EF = t.get(&m, r - 1, l.cell(0, 3, 0));
-            let b = z.b[ti];
-            let mut acc = prev;
-            let mut accs = vec![acc];
-            for s in 0..k {
-                acc = acc * b + z.c[ti + s] - z.a[ti + s];
-                accs.push(acc);
-            }
-            t.put(&mut m, r, l.cell(0, 0, 0), &z.a[ti]);
-            t.put(&mut m, r, l.cell(0, 1, 0), &b);
-            t.put(&mut m, r, l.cell(0, 2, 0), &z.c[ti]);
-            t.put(&mut m, r, l.cell(0, 3, 0), &accs[k]);
-            for c in l.extra0..l.width {
-                m.row_mut(r)[c] = F::ZERO;
-            }
-            if k >= 2 {
-                for j in 0..l.num_int {
-                    // the generator stores acc_2 in int_0 also when the arity does not use it
-                    t.put(&mut m, r, l.int_cell(j, 0), &accs[(2 * (j + 1)).min(k)]);
+        // … and re-filled by the harness (documented layout + native field arithmetic). The
+        // same filler, started from a non-zero separator `out`, builds the forged traces below.
+        let fill = |m: &mut Mat<F>, sep_out: EF| {
+            t.put(m, first - 1, l.cell(0, 3, 0), &sep_out);
+            let mut ti = 0;
+            for (r, k) in &hrows {
+                let (r, k) = (*r, *k);
+                let prev: EF = t.get(m, r - 1, l.cell(0, 3, 0));
+                let b = z.b[ti];
+                let mut acc = prev;
+                let mut accs = vec![acc];
+                for s in 0..k {
+                    acc = acc * b + z.c[ti + s] - z.a[ti + s];
+                    accs.push(acc);
                 }
-                for s in 1..k {
-                    t.put(&mut m, r, l.ac_cell(s, 0, 0), &z.a[ti + s]);
-                    t.put(&mut m, r, l.ac_cell(s, 1, 0), &z.c[ti + s]);
+                t.put(m, r, l.cell(0, 0, 0), &z.a[ti]);
+                t.put(m, r, l.cell(0, 1, 0), &b);
+                t.put(m, r, l.cell(0, 2, 0), &z.c[ti]);
+                t.put(m, r, l.cell(0, 3, 0), &accs[k]);
+                for c in l.extra0..l.width {
+                    m.row_mut(r)[c] = F::ZERO;
                 }
-                t.put(&mut m, r, l.bsq_cell(0), &(b * b));
+                if k >= 2 {
+                    for j in 0..l.num_int {
+                        // the generator stores acc_2 in int_0 also when the arity does not use it
+                        t.put(m, r, l.int_cell(j, 0), &accs[(2 * (j + 1)).min(k)]);
+                    }
+                    for s in 1..k {
+                        t.put(m, r, l.ac_cell(s, 0, 0), &z.a[ti + s]);
+                        t.put(m, r, l.ac_cell(s, 1, 0), &z.c[ti + s]);
+                    }
+                    t.put(m, r, l.bsq_cell(0), &(b * b));
+                }
+                ti += k;
             }
-            ti += k;
-        }
-        if z.acc0 == EF::ZERO {
+        };
+        fill(&mut m, EF::ZERO);
+        {
             if m.v != generated.v {
                 let ok = |x: &Mat<F>| (0..h).all(|i| failures_at(&t.air, &t.prep, x, i) == 0);
                 if ok(&generated) && !ok(&m) {
@@ -925,6 +988,17 @@ pub fn run_horner<F: PrimeField64, EF: Field + BasedVectorSpace<F>, const D: usi
         }
         let pass = t.check_base::<EF>(env, &mut st, &m, &format!("horner len={len} {bpat:?} {}", z.name));
         let last = hrows.last().unwrap().0;
+        if z.dense && pass.iter().all(|p| *p) {
+            // Forged chain start: the separator row's `out` is v ≠ 0 and the whole chain is
+            // recomputed consistently from it. Only the relation of the separator row
+            // (`out = 0` on an inactive lane) refuses this trace.
+            for (vn, v) in [("1", EF::ONE), ("gen", gen_), ("e_last", bas.last().unwrap().1)] {
+                let mut forged = generated.clone();
+                fill(&mut forged, v);
+                t.judge_whole::<EF>(env, &mut st, &forged, first - 1,
+                    &format!("separator row{}.out:={vn}, chain recomputed from it ({})", first - 1, z.name), "forged_chain_start");
+            }
+        }
         if z.dense {
             // every cell of the separator row, every chain row and the row after the chain
             for r in (first - 1)..=(last + 1).min(h - 1) {
